@@ -426,10 +426,10 @@ class Program:
             kw["cache"] = self.caches[n["id"]] = FaultyCache(name)
         ds = factory(fn, **kw)
         for alias, impl in n.get("overloads", []):
-            self.register(ds, alias, impl)
+            self.register(ds, alias, impl, cache_kind=ck)
         return ds
 
-    def register(self, ds, alias, impl):
+    def register(self, ds, alias, impl, cache_kind="default"):
         """impl: {"n": id} (register an existing node) | {"fn": name, "args": {...}} (overload decorator)."""
         alias = [_key(a) for a in alias] if isinstance(alias, list) else _key(alias)
         if "n" in impl:
@@ -442,6 +442,14 @@ class Program:
         argnames = list(impl.get("args", {}))
         fn = make_fn(impl["fn"], argnames, [self.ref(impl["args"][a]) for a in argnames], _body_impl(impl["fn"]))
         new = ds.overload(alias)(fn)
+        # the overload decorator makes a new dataset with a MemoryCache of its own: give it the same kind of
+        # backend as its parent so that its storage traffic is observable / faultable too
+        if cache_kind == "recording":
+            new.set_cache(RecordingCache(impl["fn"]))
+        elif cache_kind == "faulty":
+            new.set_cache(FaultyCache(impl["fn"]))
+        elif cache_kind == "nocache":
+            new.set_cache(labrea.cache.NoCache())
         if impl.get("id"):
             self.obj[impl["id"]] = new
         return new
